@@ -468,21 +468,39 @@ class World(object):
                             "(no disconnect reported in between: the loss of the previous connection was never "
                             "announced)" % (i, kind, key(node))})
 
+        TCPNode = self.mods["node"].TCPNode
+
+        def kind(cb, node, want_member):
+            # the kind of notification matches the kind of node: member callbacks for TCPNode members, read-only
+            # callbacks only for the ids handed to peers that introduced themselves as read-only
+            if node is None or isinstance(node, TCPNode) != want_member:
+                self.notify_viol.append({
+                    "signature": "transport.notify:wrong-kind-of-notification",
+                    "what": "transport %d: %s(%r) - %s" % (
+                        i, cb, key(node),
+                        "a read-only notification for a member (its member notification never comes: a member reported "
+                        "connected is never reported disconnected)" if not want_member else
+                        "a member notification for a node that is no member address")})
+
         def on_conn(node):
+            kind("onNodeConnected", node, True)
             twice("onNodeConnected", node)
             out.append(["nodeConn", key(node)])
             view[i].add(repr(key(node)))
 
         def on_disc(node):
+            kind("onNodeDisconnected", node, True)
             out.append(["nodeDisc", key(node)])
             view[i].discard(repr(key(node)))
 
         def on_roconn(node):
+            kind("onReadonlyNodeConnected", node, False)
             twice("onReadonlyNodeConnected", node)
             out.append(["roConn", key(node)])
             view[i].add(repr(key(node)))
 
         def on_rodisc(node):
+            kind("onReadonlyNodeDisconnected", node, False)
             out.append(["roDisc", key(node)])
             view[i].discard(repr(key(node)))
 
